@@ -11,9 +11,12 @@ namespace BV
 
 theorem tie_hasOverlap (needle : LineSpan) (haystack : List LineSpan) :
     GenF.hasOverlap needle haystack = hasOverlap needle haystack := by
-  rw [Bool.eq_iff_iff]
-  simp only [GenF.hasOverlap, hasOverlap, List.any_eq_true, Bool.and_eq_true, beq_iff_eq,
-    decide_eq_true_eq, ge_iff_le] <;>
-  (constructor <;> (rintro ⟨x, hx, h⟩; exact ⟨x, hx, by omega⟩))
+  -- both sides are `haystack.any` of a Boolean combination of the same three comparisons: compared span by
+  -- span, as propositions (whatever shape the Python gives the test: one expression, nested ifs, `continue`)
+  unfold GenF.hasOverlap hasOverlap
+  refine congrArg (List.any haystack) (funext fun span => ?_)
+  first
+    | rfl
+    | (rw [Bool.eq_iff_iff]; simp <;> omega)
 
 end BV
